@@ -118,10 +118,12 @@ theorem no_acq_eventually (x : Exec s0) (hr : Reachable s0) (ha : FiniteArrivals
   · obtain ⟨d, hd⟩ : ∃ d, j + 1 = n + d := ⟨j + 1 - n, by omega⟩
     rw [hd, hidle t ht d]; rfl
 
-/-- … and, under weak fairness, it is eventually free for ever. -/
-theorem lock_eventually_free (x : Exec s0) (hr : Reachable s0) (hf : WeakFair x) (ha : FiniteArrivals x) :
+/-- if counter_mu is acquired only finitely often then, under weak fairness, it is eventually free
+    for ever -/
+theorem lock_free_of_no_acq (x : Exec s0) (hr : Reachable s0) (hf : WeakFair x)
+    (h : ∃ n1, ∀ j, n1 ≤ j → ∀ t, holds ((x.ρ j).pc t) = false → holds ((x.ρ (j + 1)).pc t) = false) :
     ∃ n2, ∀ j, n2 ≤ j → (x.ρ j).sh.lockHolder = none := by
-  obtain ⟨n1, hacq⟩ := no_acq_eventually x hr ha
+  obtain ⟨n1, hacq⟩ := h
   have hinv : ∀ j, Inv (x.ρ j) := fun j => inv_of_reachable (x.reach hr j)
   -- free stays free
   have hstay : ∀ j, n1 ≤ j → (x.ρ j).sh.lockHolder = none → (x.ρ (j + 1)).sh.lockHolder = none := by
@@ -172,5 +174,10 @@ theorem lock_eventually_free (x : Exec s0) (hr : Reachable s0) (hf : WeakFair x)
   induction d with
   | zero => exact h2
   | succ d ih => exact hstay (n2 + d) (by omega) (ih (by omega))
+
+/-- … and, under weak fairness, it is eventually free for ever. -/
+theorem lock_eventually_free (x : Exec s0) (hr : Reachable s0) (hf : WeakFair x) (ha : FiniteArrivals x) :
+    ∃ n2, ∀ j, n2 ≤ j → (x.ρ j).sh.lockHolder = none :=
+  lock_free_of_no_acq x hr hf (no_acq_eventually x hr ha)
 
 end Counter
